@@ -92,31 +92,33 @@ Print Assumptions C10_received_in_fanout_order.
 
 (* ---- Close ---------------------------------------------------------------------------- *)
 
-(* Once Close has returned: the batcher is closed, the queue loop is gone, nothing is in
-   progress, every forwarder has exited and deregistered, and the channel of every accepted
-   subscription has been closed. *)
+(* Close may be called any number of times, from any goroutines, overlapping or one after the other.
+   [any_returned s]: SOME Close call — the first one or any later one — has returned. Once that is
+   so: the batcher is closed, the queue loop is gone, nothing is in progress, every forwarder has
+   exited and deregistered, and the channel of every accepted subscription has been closed. (No
+   Close call returns early because another one is "already closing".) *)
 Theorem C10_close : forall vr iv s,
-  reachable vr iv s -> cl s = CReturned ->
+  reachable vr iv s -> any_returned s ->
   closed s = true /\ loop_dead s = true /\ proc s = PIdle /\ lock s = Free /\
   forall b, In b (subs s) ->
     fwd b = Exited /\ registered b = false /\ (accepted b = true -> user_closed b = true).
 Proof. exact Proofs_wedge.close_clean. Qed.
 Print Assumptions C10_close.
 
-(* ... and nothing more is sent: after Close has returned, NO continuation (further Batch and
-   Subscribe calls, clock advances, reads, cancellations, in any order) fans anything out or makes
-   any consumer receive anything. *)
+(* ... and nothing more is sent: after a Close call has returned, NO continuation (further Batch,
+   Subscribe and Close calls, clock advances, reads, cancellations, in any order) fans anything out
+   or makes any consumer receive anything. *)
 Theorem C10_close_nothing_more : forall vr iv es s s',
-  reachable vr iv s -> cl s = CReturned -> run vr iv s es = Some s' ->
-  cl s' = CReturned /\ fanout s' = fanout s /\ forall i, recv_of s' i = recv_of s i.
+  reachable vr iv s -> any_returned s -> run vr iv s es = Some s' ->
+  any_returned s' /\ fanout s' = fanout s /\ forall i, recv_of s' i = recv_of s i.
 Proof. exact Proofs_wedge.close_frozen. Qed.
 Print Assumptions C10_close_nothing_more.
 
 (* ---- departures never wedge it ---------------------------------------------------------- *)
 
 (* Current code. In every reachable state in which none of the batcher's own steps is possible,
-   EITHER nothing is pending (lock free, no callback running, no Subscribe or Close call waiting:
-   every call has returned) OR a delivery is blocked on a subscriber that is still subscribed,
+   EITHER nothing is pending (lock free, no callback running, no Subscribe call and none of the
+   Close calls — first or later — waiting: every call has returned) OR a delivery is blocked on a subscriber that is still subscribed,
    whose context has NOT ended, whose 50-slot buffer is full and whose consumer is not receiving —
    back-pressure from a live subscriber. A subscriber whose context has ended is never the reason. *)
 Theorem C10_no_wedge : forall iv s,
